@@ -11,7 +11,7 @@ Definition bkey (b : backend) : N * N := (b_id b, b_addr b).
 Definition InvR (fingerprint : N -> option N) (inames : N -> option (list N)) (hc_valid : N -> bool) (s : state) : Prop :=
   Inv5 hc_valid s
   /\ (forall c l, backends s !! c = Some l -> isort bk_le l = l /\ NoDup (bkey <$> l))
-  /\ (forall udp c l, get_t udp s !! c = Some l -> NoDup l)
+  /\ (forall udp c l, get_t udp s !! c = Some l -> NoDup (t_addr <$> l))
   /\ (forall a b fp k, certs s !! a = Some b -> b !! fp = Some k ->
         fingerprint (k_pem k) = Some fp /\ resolve inames k = Some (k_names k)).
 
@@ -41,7 +41,7 @@ Section buckets.
 
   (** ** tcp / udp frontends *)
   Lemma replay_tfront_bucket udp c l : forall pre m s,
-    NoDup (pre ++ l) -> default [] (m !! c) = pre ->
+    NoDup (t_addr <$> (pre ++ l)) -> default [] (m !! c) = pre ->
     replay (map (RAddTFront udp c) l) (set_t udp s m)
     = (set_t udp s (match l with [] => m | _ => <[c := pre ++ l]> m end), 0%nat).
   Proof.
@@ -49,8 +49,8 @@ Section buckets.
     assert (Hget : forall m0, get_t udp (set_t udp s m0) = m0) by (intros; destruct udp; reflexivity).
     assert (Hset : forall m0 m', set_t udp (set_t udp s m0) m' = set_t udp s m') by (intros; destruct udp; reflexivity).
     cbn [map Model.replay Model.dispatch]. unfold add_tfront. rewrite Hget, Hpre.
-    assert (Hnin : t ∉ pre).
-    { apply NoDup_app in Hnd as (_ & Hd & _). intros Hin. apply (Hd t Hin). left. }
+    assert (Hnin : t_addr t ∉ (t_addr <$> pre)).
+    { rewrite fmap_app in Hnd. apply NoDup_app in Hnd as (_ & Hd & _). intros Hin. apply (Hd _ Hin). left. }
     rewrite bool_decide_eq_false_2 by exact Hnin. rewrite Hset.
     rewrite (IH (pre ++ [t]) (<[c := pre ++ [t]]> m) s).
     - f_equal. f_equal. destruct l; [reflexivity|].
@@ -64,7 +64,7 @@ Section buckets.
 
   Lemma replay_tfronts udp (lb : list (N * list tfront)) : forall acc s,
     NoDup (lb.*1) -> (forall c, c ∈ lb.*1 -> acc !! c = None) ->
-    (forall c l, In (c, l) lb -> NoDup l) ->
+    (forall c l, In (c, l) lb -> NoDup (t_addr <$> l)) ->
     replay (flat_map (fun cl : N * list tfront => map (RAddTFront udp (fst cl)) (snd cl)) lb) (set_t udp s acc)
     = (set_t udp s (foldl put_bucket acc lb), 0%nat).
   Proof.
@@ -101,7 +101,7 @@ Section buckets.
   Qed.
 
   Lemma replay_gen_tfronts udp m s :
-    get_t udp s = ∅ -> (forall c l, m !! c = Some l -> NoDup l) ->
+    get_t udp s = ∅ -> (forall c l, m !! c = Some l -> NoDup (t_addr <$> l)) ->
     replay (gen_tfronts udp m) s = (set_t udp s (drop_empty m), 0%nat).
   Proof.
     intros He Hl. unfold gen_tfronts.
